@@ -325,6 +325,10 @@ class Exec:
                 return res
             raise Unsupported('tuple cmp')
         t = type(op)
+        if t is ast.Eq and a.ty.kind == 'list' and b.ty.kind == 'list' and 'EQ' in s.spec.ufuns:
+            EQ = s.spec.ufuns['EQ'][0]; k = Int(f'k!eq{next(_fresh)}')
+            na, nb = s.llen(st.heap, a), s.llen(st.heap, b); ea, eb = s.lelem(st.heap, a), s.lelem(st.heap, b)
+            return And(na == nb, ForAll([k], Implies(And(0 <= k, k < na), EQ(Select(ea, k), Select(eb, k)))))
         if t in (ast.Is, ast.Eq): return a.t == b.t
         if t in (ast.IsNot, ast.NotEq): return a.t != b.t
         if t is ast.Lt: return a.t < b.t
@@ -427,7 +431,28 @@ class Exec:
             for o, n, g in reversed(segs): r = If(And(o <= k, k < o + n), g(k), r)
             return r
         return s.new_list(st, ListT(ety or INT), off, f)
+    def pointwise(s, st, e):
+        """[x.m(args) for x in xs] / generator form, where m has a `functional('UF')` contract: a fresh sequence with L[k] == UF(xs[k], args...)"""
+        if len(e.generators) != 1 or e.generators[0].ifs or not isinstance(e.generators[0].target, ast.Name): return None
+        g = e.generators[0]; x = g.target.id; call = e.elt
+        if not (isinstance(call, ast.Call) and isinstance(call.func, ast.Attribute) and isinstance(call.func.value, ast.Name) and call.func.value.id == x): return None
+        xs = s.ev(st, g.iter)
+        if xs.ty.kind != 'list' or xs.ty.arg.kind != 'ref' or xs.ty.arg.arg not in s.p.classes: return None
+        c_, m_ = s.p.method(xs.ty.arg.arg, call.func.attr)
+        if m_ is None: return None
+        q = s.qual(c_, m_.name); ct = s.spec.contracts.get(q)
+        uf = getattr(ct, 'functional', None) if ct is not None else None
+        if uf is None or uf not in s.spec.ufuns: return None
+        args = [s.ev(st, a).t for a in call.args]
+        n = s.llen(st.heap, xs); arr = s.lelem(st.heap, xs); f = s.spec.ufuns[uf][0]
+        return s.new_list(st, xs.ty, n, lambda k: f(Select(arr, k), *args))
+    def ev_GeneratorExp(s, st, e):
+        r = s.pointwise(st, e)
+        if r is None: raise Unsupported(f'generator expression {ast.unparse(e)[:60]}')
+        return r
     def ev_ListComp(s, st, e):
+        r = s.pointwise(st, e)
+        if r is not None: return r
         g = e.generators[0]
         if not (len(e.generators) == 1 and isinstance(g.iter, ast.Call) and getattr(g.iter.func, 'id', None) == 'enumerate' and len(g.ifs) == 1):
             raise Unsupported('comprehension shape')
@@ -473,6 +498,8 @@ class Exec:
             if n == 'isinstance' and isinstance(e.args[1], ast.Name) and e.args[1].id in s.p.classes and s.ev(st, e.args[0]).ty.kind == 'ref' \
                     and e.args[1].id not in (s.p.mro(s.ev(st, e.args[0]).ty.arg) if s.ev(st, e.args[0]).ty.arg in s.p.classes else []):
                 return SV(s.isinst(s.ev(st, e.args[0]), e.args[1].id), BOOL)
+            if n == 'isinstance' and isinstance(e.args[1], ast.Name) and e.args[1].id in ('Iterable', 'Sequence', 'Collection') and e.args[1].id not in s.p.classes:
+                v = s.ev(st, e.args[0]); return SV(BoolVal(v.ty.kind in ('list', 'tuple')), BOOL)
             if n == 'isinstance' and isinstance(e.args[1], ast.Name) and e.args[1].id in ('str', 'int', 'bool'):
                 v = s.ev(st, e.args[0]); return SV(BoolVal(v.ty == {'str': STR, 'int': INT, 'bool': BOOL}[e.args[1].id]), BOOL)
             if n == 'isinstance':
@@ -488,6 +515,14 @@ class Exec:
                 v = s.ev(st, e.args[0])
                 if v.ty.kind == 'tuple' and len(v.t) == 2: return SV(s.spec.ufuns['str_hash'][0](v.t[0].t, v.t[1].t), INT)
                 raise Unsupported('hash of a non-pair')
+            if n in ('min', 'max') and len(e.args) == 2:
+                a_, b_ = s.ev(st, e.args[0]), s.ev(st, e.args[1])
+                if a_.ty == INT and b_.ty == INT: return SV(If(a_.t <= b_.t, a_.t, b_.t) if n == 'min' else If(a_.t >= b_.t, a_.t, b_.t), INT)
+                raise Unsupported('min/max of non-ints')
+            if n == 'tuple' and len(e.args) == 1:
+                v = s.ev(st, e.args[0])
+                if v.ty.kind == 'list': return v          # a tuple built from a (fresh) sequence: same abstract sequence
+                raise Unsupported('tuple() of a non-sequence')
             if n == 'list':
                 if not e.args: return s.new_list(st, ListT(INT), IntVal(0), lambda k: IntVal(0))
                 v = s.ev(st, e.args[0])
@@ -533,12 +568,17 @@ class Exec:
             if fn.attr in ('count', 'rfind') and isinstance(e.args[0], ast.Constant) and e.args[0].value == '\n':
                 v = s.ev(st, fn.value)
                 if v.ty == STR: return SV((s.str_cnt if fn.attr == 'count' else s.str_rf)(v.t), INT)
-            if isinstance(fn.value, ast.Name) and fn.value.id in s.p.classes and fn.value.id not in st.env:   # Class.method(...)
-                cls = fn.value.id; c, m = s.p.method(cls, fn.attr)
+            qual = (isinstance(fn.value, ast.Attribute) and isinstance(fn.value.value, ast.Name) and fn.value.value.id not in st.env
+                    and fn.value.value.id not in s.p.classes and fn.value.attr in s.p.classes)       # module.Class.method(...)
+            if qual or (isinstance(fn.value, ast.Name) and fn.value.id in s.p.classes and fn.value.id not in st.env):   # Class.method(...)
+                cls = fn.value.attr if qual else fn.value.id; c, m = s.p.method(cls, fn.attr)
                 if m is None and cls in s.p.classes and s.p.classes[cls].dataclass: raise Unsupported('dataclass classmethod')
                 args = [s.ev(st, a) for a in e.args]
                 kw = {k.arg: s.ev(st, k.value) for k in e.keywords}
                 return s.call(st, m, args, owner=c, cls_arg=cls, kwargs=kw)
+            if isinstance(fn.value, ast.Name) and fn.value.id not in st.env and fn.value.id not in s.p.classes and fn.attr in s.p.funcs:
+                kw = {k.arg: s.ev(st, k.value) for k in e.keywords}
+                return s.call(st, s.p.funcs[fn.attr], [s.ev(st, a) for a in e.args], name=fn.attr, kwargs=kw)
             if isinstance(fn.value, ast.Name) and fn.value.id == 'cls' and 'cls' in st.env and isinstance(st.env['cls'], str):
                 cls = st.env['cls']; raise Unsupported('cls.method')
             o = s.ev(st, fn.value)
@@ -565,6 +605,14 @@ class Exec:
             na = fresh('arr', IA); k = Int('k!')
             st.defs.append(ForAll([k], Select(na, k) == If(And(k >= n, k < n + m), Select(a2, k - n), Select(arr, k))))
             s.set_list(st, o, n + m, na); return SV(IntVal(0), NONE)
+        if name == 'insert':
+            i = s.ev(st, e.args[0]).t; v = s.ev(st, e.args[1])
+            s.oblige(st, f'index[insert position]@{e.lineno}', And(0 <= i, i <= n), 'safety')      # engine restriction: the position must be normalised (0 <= i <= len)
+            na = fresh('arr', IA); k = Int('k!')
+            st.defs.append(ForAll([k], Select(na, k) == If(k < i, Select(arr, k), If(k == i, v.t, Select(arr, k - 1)))))
+            s.set_list(st, o, n + 1, na); return SV(IntVal(0), NONE)
+        if name == 'clear':
+            s.set_list(st, o, IntVal(0), arr); return SV(IntVal(0), NONE)
         if name == 'pop':
             i = s.norm_index(st, n, s.ev(st, e.args[0]).t if e.args else IntVal(-1), 'pop', e.lineno)
             na = fresh('arr', IA); k = Int('k!')
@@ -781,7 +829,10 @@ class Exec:
             stg = st.fork(); stg.env = dict(st.env)
             for act in curc.before_call[q]: s.ghost_action(st, act)
         c = s.spec.contracts.get(q)
-        rty = parse_ann(fdef.returns, dict(s.p.tv, Self=cls_arg or owner)) if fdef.returns is not None else NONE
+        self_cls = cls_arg or owner
+        if cls_arg is None and args and isinstance(args[0], SV) and args[0].ty.kind == 'ref' and fdef.args.args and fdef.args.args[0].arg == 'self' and args[0].ty.arg in s.p.classes:
+            self_cls = args[0].ty.arg          # `Self` is the (static) class of the receiver
+        rty = parse_ann(fdef.returns, dict(s.p.tv, Self=self_cls)) if fdef.returns is not None else NONE
         if c is not None and q != s.cur:
             return s.call_contract(st, q, c, env, rty)
         if q == s.cur and c is not None: return s.call_contract(st, q, c, env, rty)   # recursion via contract
@@ -917,6 +968,9 @@ class Exec:
         st3 = st.fork(); st3.env = dict(env, result=res); st3.old = snapshot; st3.old_env = dict(env)
         for e in c.ensures:
             if s.uses(e): st.pc.append(s.spec_bool(st3, e))
+        uf_ = getattr(c, 'functional', None)
+        if uf_ is not None and uf_ in s.spec.ufuns and rty is not None and rty.kind != 'tuple':
+            st.pc.append(res.t == s.spec.ufuns[uf_][0](*[env[p_].t for p_ in c.params if p_ in env and isinstance(env[p_], SV)]))
         st.defs = st3.defs
         return res
 
@@ -1331,6 +1385,8 @@ class Spec:
                         elif kind == 'ghost': c.ghost_exit.append(call.args)
                         elif kind == 'after_assign': c.after_assign.setdefault(call.args[0].value, []).append(call.args[1:])
                         elif kind == 'before_call': c.before_call.setdefault(call.args[0].value, []).append(call.args[1:])
+                        elif kind == 'functional':
+                            c.functional = call.args[0].value
                         elif kind == 'at_yield':
                             c.at_yield = getattr(c, 'at_yield', []); c.at_yield.append(call.args)
                         elif kind == 'types':
